@@ -18,6 +18,14 @@ pub type DeserializeResult<T> = Result<T, DeserializeError>;
 // @trusted: R3 construction of an error value
 #[verifier::external_body]
 fn ext_deser_error() -> DeserializeError { unimplemented!() }
+impl ValueObj {
+    // @trusted: `impl HasType for ValueObj { fn ref_t(&self) -> &Type { panic!("cannot get reference of the const") } }` (value.rs): calling it PANICS => precondition false
+    #[verifier::external_body]
+    fn ref_t(&self) -> (r: &Opaque) requires false { unimplemented!() }
+    // @trusted: ValueObj::class (value.rs): a total match over the variants returning the class of the value
+    #[verifier::external_body]
+    fn class(&self) -> (r: Opaque) { unimplemented!() }
+}
 
 pub struct Deserializer { pub _caches: Opaque }
 impl Clone for PythonVersion {
